@@ -287,7 +287,7 @@ def boot(scheduler_type='default', auth_enable=False):
             self.target = target
 
         def start(self):
-            W.add(Ev('ptx', 'queue', self.target))
+            W.add(Ev('ptx', _queue_label(self.target), self.target))
 
     class FakeThreading(object):
         Thread = FakeThread
@@ -419,6 +419,19 @@ def _chain_step(orig_pq, rest, ctx, chain):
             for ev in chain['parked']:
                 W.events.append(ev)
             chain['parked'] = []
+
+
+def _queue_label(target):
+    """Label of a captured post-tx thread: the name of its first
+    operation (read from the closure of the thread target)."""
+    try:
+        for cell in (target.__closure__ or ()):
+            v = cell.cell_contents
+            if isinstance(v, list) and v and isinstance(v[0], tuple):
+                return _op_label(v[0])
+    except Exception:
+        pass
+    return 'queue'
 
 
 def _op_label(op):
